@@ -42,6 +42,17 @@ func InitVisited(ctx context.Context) context.Context {
 	return ctx
 }
 
+// WithFreshVisited returns a context that carries a new, empty visited set.
+//
+// The visited set is only a sound optimization as long as the result of the
+// first visit is combined with the result of every later (skipped) visit by
+// unions only. The operands of an intersection and the operand of an
+// exclusion therefore must not share a visited set with their siblings or
+// ancestors.
+func WithFreshVisited(ctx context.Context) context.Context {
+	return context.WithValue(ctx, visitedMapKey, newStringSet())
+}
+
 func CheckAndAddVisited(ctx context.Context, current relationtuple.Subject) (context.Context, bool) {
 	set, ok := ctx.Value(visitedMapKey).(*stringSet)
 	if !ok {
